@@ -20,3 +20,29 @@ CHECKS = {
                                              "NaN ratios excluded; *OnlyExisting comparisons asserted only where both operands are non-empty and share a type"],
     },
 }
+
+WORLD_ASSUMPTIONS = COMMON_ASSUMPTIONS + [
+    "interleavings are explored at the granularity of one whole RM event handler / one scheduling cycle (finer interleavings belong to C14)",
+    "timers are fired deterministically through hooks, only when the real timer is armed; ask age is 0 or 3600 s",
+    "oracles read state through exported getters / REST DAO builders plus three hook accessors",
+]
+
+
+def world(prop, test, rule, quick=(8, 60), thorough=(16, 1500), **kw):
+    d = {
+        "replay_test": "TestWorldReplay",
+        "replay_times": 25,
+        "runs": [{"test": test, "shards_quick": quick[0], "checks_quick": quick[1], "shards_thorough": thorough[0], "checks_thorough": thorough[1]}],
+        "rule": rule,
+        "assumptions": WORLD_ASSUMPTIONS,
+        "timeout_quick": 900,
+        "timeout_thorough": 3300,
+    }
+    d.update(kw)
+    return d
+
+
+CHECKS["C03"] = world("C03", "TestC03",
+    "generated histories (10-60 ops + drain epilogue) on a generated valid configuration; non-trivial = at least 5 scheduler bindings and at least one disturbance "
+    "(node removal with a swap in flight, application removal with live allocations, release of an unknown/released key, duplicated or dropped confirmation); "
+    "distinct = hash of the resolved op trace")
